@@ -61,6 +61,50 @@ def lit_value(n):
             return None
 
 
+# ------------------------------------------------------------------------------------------------- shape normalisation
+NEG = {'<': '>=', '<=': '>', '>': '<=', '>=': '<', '==': '!=', '!=': '=='}
+
+
+def _negate(cond):
+    c = strip_casts(cond)
+    while c.get('k') == 'ParenExpr':
+        c = strip_casts(c['c'][0])
+    if c.get('k') == 'BinaryOperator' and c.get('op') in NEG:
+        n = dict(c)
+        n['op'] = NEG[c['op']]
+        n.pop('v', None)
+        return n
+    return {'k': 'UnaryOperator', 'op': '!', 'ln': c.get('ln'), 'c': [c]}
+
+
+def _is_value_return(stmt):
+    b = stmt.get('c', []) if stmt.get('k') == 'CompoundStmt' else [stmt]
+    if len(b) != 1 or b[0].get('k') != 'ReturnStmt' or not b[0].get('c'):
+        return False
+    v = strip_casts(b[0]['c'][0])
+    return not (v.get('k') in ('IntegerLiteral', 'FloatingLiteral') and lit_value(v) == 0)
+
+
+def normalise_returns(n, is_exit):
+    """if (c) return value;  <error exit>     ==>     if (!c) { <error exit> }  return value;
+    (the two spellings of a guard; applied to both translations before they are compared)"""
+    if isinstance(n, list):
+        return [normalise_returns(x, is_exit) for x in n]
+    if not isinstance(n, dict):
+        return n
+    out = {k: normalise_returns(v, is_exit) if isinstance(v, (dict, list)) else v for k, v in n.items()}
+    if out.get('k') == 'CompoundStmt':
+        c = out.get('c', [])
+        for i, st in enumerate(c):
+            if st.get('k') == 'IfStmt' and not st.get('else') and _is_value_return(st.get('then') or {}) and i + 1 < len(c):
+                rest = {'k': 'CompoundStmt', 'ln': c[i + 1].get('ln'), 'c': c[i + 1:]}
+                if is_exit(rest):
+                    ret = st['then']['c'][0] if st['then'].get('k') == 'CompoundStmt' else st['then']
+                    out['c'] = c[:i] + [{'k': 'IfStmt', 'ln': st.get('ln'), 'cond': _negate(st['cond']), 'then': rest}, ret]
+                    break
+    return out
+
+
 # ------------------------------------------------------------------------------------------------------------------ C
 class CSide:
     def __init__(self, prog):
@@ -89,7 +133,7 @@ class CSide:
     def raw(self, f, skip_conditions=False):
         fp = Finger()
         self._skip_cond = skip_conditions
-        self._walk(f['body'], fp, f)
+        self._walk(normalise_returns(f['body'], is_error_exit_c), fp, f)
         self._skip_cond = False
         return fp
 
@@ -339,7 +383,7 @@ class JavaSide:
 
     def raw(self, f):
         fp = Finger()
-        self._walk(f.get('body') or {}, fp, f)
+        self._walk(normalise_returns(f.get('body') or {}, Guards._java_exit), fp, f)
         return fp
 
     def _walk(self, n, fp, f, index=False):
@@ -787,7 +831,7 @@ class Guards:
                 if isinstance(d, dict) and d.get('init') is not None:
                     walk_stmt(d['init'], swallow)
 
-        walk_stmt(f.get('body') or {}, False)
+        walk_stmt(normalise_returns(f.get('body') or {}, is_error_exit_c if side == 'c' else self._java_exit), False)
         return guards, sites
 
     @staticmethod
